@@ -107,8 +107,9 @@ std::map<pMPI::JobId, pMPI::WorkerId> mpi_skel<WrapType>::run(const boost::mpi::
     pMPI::verif::event("world_barrier_enter", rank);
 #endif
     // at this moment all communication is finished
-    //comm.barrier();
-    MPI_Barrier(MPI_COMM_WORLD);
+    // synchronise the ranks taking part in this dispatch only: a barrier on MPI_COMM_WORLD
+    // deadlocks as soon as the communicator is a proper subset of the world
+    comm.barrier();
 #ifdef POMEROL_VERIF
     pMPI::verif::event("world_barrier_leave", rank);
 #endif
